@@ -384,6 +384,39 @@ def run_extras(r, iface):
                 if res.exc is not None or probs or (stack and len(res.start_calls) != 1):
                     r.violation("protocol:wsgi:error-idiom", {"iface": iface, "recipe": f"error idiom behind {'>'.join(stack) or 'nothing'}", "fault": None},
                                 f"wsgi application replacing its response through start_response(..., exc_info) behind middleware {stack}: the server saw {len(res.start_calls)} start_response call(s) {[c[0] for c in res.start_calls]}, exception {res.exc!r:.80}, {probs[:1]}")
+        # entries of the served directory that are neither regular files nor directories: a named pipe, a link to /dev/null (a muted
+        # favicon.ico), a unix socket - requested by their own paths from the static-file apps: a complete response (or an HTTP
+        # error raised before anything was sent), never silence
+        from baize.exceptions import HTTPException
+        sd = os.path.join(d, "site")
+        os.makedirs(sd)
+        with open(os.path.join(sd, "index.html"), "w") as f:
+            f.write("<i>")
+        os.mkfifo(os.path.join(sd, "pipe"))
+        os.symlink("/dev/null", os.path.join(sd, "favicon.ico"))
+        os.symlink("/dev/null", os.path.join(sd, "muted.html"))
+        import socket as _socket
+        sk = _socket.socket(_socket.AF_UNIX)
+        cwd = os.getcwd()
+        os.chdir(sd)
+        try:
+            sk.bind("sock")
+        finally:
+            os.chdir(cwd)
+            sk.close()
+        for kind in ("Files", "Pages"):
+            for with404 in (False, True):
+                app = getattr(m, kind)(sd, **({"handle_404": m.PlainTextResponse("custom", 404)} if with404 else {}))
+                for path in ("/pipe", "/favicon.ico", "/sock", "/muted", "/muted.html", "/pipe/", "/favicon.ico/x"):
+                    for method in ("GET", "HEAD"):
+                        req = SV.AReq(path=path, method=method)
+                        res = SV.run_wsgi(app, SV.to_environ(req), monitor=False) if iface == "wsgi" else SV.run_asgi(app, SV.to_scope(req), SV.to_messages(req), monitor=False)
+                        name = f"{kind}{' with handle_404' if with404 else ''} on the special file {path} ({method})"
+                        r.count("evaluations")
+                        r.count("distinct_nontrivial")
+                        if isinstance(res.exc, HTTPException) and 400 <= res.exc.status_code < 500 and not (res.events if iface == "asgi" else res.start_calls):
+                            continue
+                        judge(r, iface, name, res, None)
         for n in (262143, 262144, 262145, 524287, 524288, 524289, 786432, 1048576):
             for kind, mk in (("text", lambda: m.PlainTextResponse(b"x" * n)), ("html", lambda: m.HTMLResponse("y" * n)), ("json", lambda: m.JSONResponse("z" * (n - 2)))):
                 res = call(iface, mk(), "GET")
